@@ -560,6 +560,35 @@ def _roundtrip_one(ctx, r, kind, i):
             fail("bounds-not-reused", "second prepare_data call on a sub-range of the first data is not the same affine map", rep)
         else:
             cov.hit("bounds-reused")
+        # 6. a later call on data partly OUTSIDE the first call's bounds: still the first call's affine map (values
+        #    leave [0,1] and validation will reject them, but nothing is clipped) and restore_data still inverts it
+        if fuzzy is not None or kind == "FusionART":
+            outs = tuple(a + (a.max(axis=0) - a.min(axis=0)) * np.array([[(-1.0) ** (i_ + j_) * 0.5 * ((i_ + j_) % 3) for j_ in range(a.shape[1])]
+                                                                         for i_ in range(a.shape[0])]) for a in args)
+            try:
+                P3 = prep(outs)
+                R3 = restore(P3)
+            except Exception as e:
+                cov.hit("later-call-outside-bounds:raised:" + exc_enum(e))
+                cov.traces += 1
+                return
+            M3 = mats(P3)
+            okmap = True
+            for t, a, o3, fz in (zip(M3, args, outs, fuzzy) if fuzzy is not None else []):
+                mn, mx = a.min(axis=0), a.max(axis=0)
+                want = (o3 - mn) / (mx - mn)
+                got = np.asarray(t, dtype=float)[:, : a.shape[1]]
+                if got.shape != want.shape or not np.allclose(got, want, rtol=1e-9, atol=1e-9):
+                    okmap = False
+            if not okmap:
+                fail("later-call-outside-bounds:not-the-first-call's-map",
+                     "a later prepare_data call on data outside the first call's column bounds is not (x - min1) / (max1 - min1)",
+                     dict(rep, later=[o.tolist() for o in outs]))
+            elif len(R3) != len(outs) or not all(approx(a, b) for a, b in zip(R3, outs)):
+                fail("later-call-outside-bounds:roundtrip", "restore_data(prepare_data(X)) differs from X for a later batch outside "
+                     "the first call's bounds", dict(rep, later=[o.tolist() for o in outs]))
+            else:
+                cov.hit("later-call-outside-bounds:ok")
         cov.traces += 1
 
 
